@@ -52,6 +52,10 @@ def run(tier, seed):
         gens += [("check+comment", F.consts(WithHist="TRUE", MaxOpts=4, Opts=F.optset(*(F.CORE_OPTS[:3] + F.CORE_OPTS[4:7] + [("check", "c1"), ("comment", "l1"), ("comment", "l2")]))), True),
                  ("defaults x orders", F.consts(WithHist="TRUE", TypeForms='{"vc"}', MaxOpts=3, Opts=F.optset(*(alldef + [("null", "notnull"), ("unique", "u"), ("ref", "r2")]))), True),
                  ("4 columns", F.consts(WithHist="TRUE", MaxCols=4, FocusAt=4, MaxOpts=2), True)]
+    sim_cfg = None
+    if thorough:
+        sim_cfg = F.consts(WithHist="TRUE", MaxCols=4, FocusAt=3, MaxOpts=7, TypeForms=alltypes,
+                           Opts=F.optset(*(F.CORE_OPTS + alldef[2:8] + [("check", "c1"), ("comment", "l1"), ("comment", "l2"), ("ref", "r2"), ("ref", "r4")])))
     seeds = [seed * 5 + i for i in range(3 if not thorough else 5)]
     total = uniq = 0
     sample = None
@@ -64,6 +68,13 @@ def run(tier, seed):
         if sample is None and g.beh:
             b = g.beh[len(g.beh) // 3]
             sample = {"abstract": F.abstract(b), "ddl": T.render(b["hist"], seeds[0]), "expected": keep(T.expected(b["obs"], b["open"]))}
+    if sim_cfg:
+        g = F.mc(sim_cfg, "simulation: 4 columns, <=7 options in any order, every type / default form", timeout=3000, simulate="num=30000", depth=16, seed=seed + 3)
+        ub = list({repr(b["hist"]): b for b in g.beh}.values())
+        n, nu, nbad = F.compare(V, ub, seeds[:2], "simulation", keep, extra_tables=True, layouts=T.LAYOUTS)
+        total += n
+        uniq += nu
+        cov["generation"].append({"config": "simulation (4 columns, <=7 options)", "behaviours": len(ub), "renderings": n, "mismatches": nbad})
     rc = V.finish()
     cov.update({"states": states, "transitions": trans, "traces_validated_against_impl": total, "distinct_real_parses": uniq,
                 "seeds": seeds, "samples": [sample], "exhaustive": True})
